@@ -71,6 +71,26 @@ def sequential_events(rnd: random.Random, q: bool) -> list:
                 # the same question with cold caches (the history is put back afterwards)
                 pure = cold(calc, lambda: LocalDate(y, m, d, cal)._days_since_epoch)
                 evs.append({"op": "ys", "cal": cid, "y": y, "m": m, "d": d, "res": res, "pure": pure})
+    # 1b. two-step histories from empty caches: ask about year a, then about every month end of year b, for a and b around
+    #     multiples of the cache size (slot 0 next to slot 1023: the neighbours of a year live in the wrapped slot)
+    for cid in CalendarSystem.ids:
+        cal = CalendarSystem.for_id(cid)
+        calc = cal._year_month_day_calculator
+
+        def ask(y, cal=cal):
+            return [LocalDate(y, m, cal.get_days_in_month(y, m), cal)._days_since_epoch for m in range(1, cal.get_months_in_year(y) + 1)]
+
+        mults = [j * 1024 for j in range(-10, 11)]
+        for _ in range(40 if q else 600):
+            ja = rnd.choice(mults)
+            a = ja + rnd.choice([-2, -1, 0, 1, 2])
+            b = ja + rnd.choice([-1024, 0, 1024]) + rnd.choice([-2, -1, 0, 1, 2])
+            if not (cal.min_year <= a <= cal.max_year and cal.min_year <= b <= cal.max_year):
+                continue
+            res = cold(calc, lambda: (ask(a), ask(b))[1])
+            pure = cold(calc, lambda: ask(b))
+            for m, (r, p) in enumerate(zip(res, pure), 1):
+                evs.append({"op": "ys", "cal": cid, "y": b, "m": m, "d": cal.get_days_in_month(b, m), "res": r, "pure": p, "after": a})
     # 2. zone interval caches: instants 512 * 32 days apart on either side of transitions
     tz = DateTimeZoneProviders.tzdb
     for zid in rnd.sample(list(tz.ids), 6 if q else 60):
